@@ -163,7 +163,11 @@ func cmdWork(args []string) int {
 			break
 		}
 		rs := kit.Mix(*seed, uint64(idx))
+		tRun := time.Now()
 		o := eng.Run(rs, st)
+		if d := time.Since(tRun); d > 3*time.Second {
+			fmt.Fprintf(os.Stderr, "note: run %d (seed %d) took %.1fs, %d steps\n", idx, rs, d.Seconds(), o.Steps)
+		}
 		res.Executed++
 		res.Last = idx
 		logh = logh.Int(int64(o.Sig)).Int(int64(o.Steps))
